@@ -122,14 +122,23 @@ func resolveReal(names []string) ([]protoreflect.Descriptor, bool) {
 func (s seqImpl) Exec(h *vh.H, op string) string {
 	done := make(chan string, 1)
 	go func() { done <- h.Guard(op, func() string { return s.exec(h, op) }) }()
-	select {
-	case res := <-done:
-		return res
-	case <-time.After(120 * time.Second):
-		fmt.Fprintf(os.Stderr, "DEADLOCK: op did not return within 120 s: %s\n", op)
-		_ = pprof.Lookup("goroutine").WriteTo(os.Stderr, 1)
-		os.Exit(3)
-		return "deadlock"
+	for ext := 0; ; ext++ {
+		select {
+		case res := <-done:
+			return res
+		case <-time.After(120 * time.Second):
+			// stuck = nobody can run. On an overloaded machine (load average > 200 seen) an op can sit out
+			// the watchdog while its goroutine is running or runnable (seen: inside dumpSchema): slow, not
+			// stuck; it gets up to six more periods (same rule as the child of conc.race, `runnableOthers`)
+			if ext < 6 && runnableOthers() > 0 {
+				h.Count("seq.slow-extension")
+				continue
+			}
+			fmt.Fprintf(os.Stderr, "DEADLOCK: op did not return within %d s: %s\n", 120*(ext+1), op)
+			_ = pprof.Lookup("goroutine").WriteTo(os.Stderr, 1)
+			os.Exit(3)
+			return "deadlock"
+		}
 	}
 }
 
